@@ -43,9 +43,9 @@ def recipe(c: Check):
             c.broken.append(dict(kind="coverage", name="model branches never reached: %s" % ",".join(missing),
                                  detail="the correspondence run did not exercise these branches of Model/HttpAuth.v"))
     return c.finish(
-        rule="httpauth driver, exhaustive grid: {origin, absolute, CONNECT} x 14 credential kinds in Authorization (none, right, wrong "
+        rule="httpauth driver, exhaustive grid: {origin, absolute, CONNECT} x 16 credential kinds in Authorization (none, right, wrong "
              "password, wrong user, other route's user, malformed base64, empty user, empty password, admin, lower-case scheme, other "
-             "scheme, no colon, password prefix, password extended) x the same 14 in Proxy-Authorization x {HTTP/1.0, HTTP/1.1 with "
+             "scheme, no colon, password prefix, password extended, user in other case, password in other case) x the same 16 in Proxy-Authorization x {HTTP/1.0, HTTP/1.1 with "
              "canonical / lower / upper header names, h2c stream after an upgrade} x targets of 3 fixed + seeded random route tables "
              "(protected, unprotected, user-routed, wildcard, password-only, no backend) on the real vhost.HTTPReverseProxy behind "
              "net/http on loopback with recording stub backends; CONNECT grid on the real tcpmux muxer (passthrough on/off); the real "
